@@ -25,9 +25,15 @@ Bound(d, ratify) ==
 \* least once (however many extra copies, however late those), its echo is prompt, no third party
 \* send = <<device, frame, extra transmission delay, <<copy delays>>>>
 Prompt(s) == s[3] <= Short /\ \E i \in 1..Len(s[4]) : s[4][i] <= Short
+\* "mixed with unrelated binding traffic": a third party's offer is unrelated once the respondent has heard the
+\* supplicant's own offer (one that arrives before it is, for the respondent, simply the first offer - nothing can
+\* tell the two apart); the earliest copy of the first frame (the offer) reaches R at its tx delay + copy delay
+MinOf(q) == LET S == {q[i] : i \in 1..Len(q)} IN CHOOSE m \in S : \A x \in S : m <= x
+OfferHeardAt(sends) == sends[1][3] + MinOf(sends[1][4])
 Undisturbed(present, third, sends, ratify) ==
-    /\ present = <<TRUE, TRUE>> /\ third = -1
+    /\ present = <<TRUE, TRUE>>
     /\ Len(sends) = (IF ratify THEN 4 ELSE 3) /\ \A i \in 1..Len(sends) : Prompt(sends[i])
+    /\ (third = -1 \/ third > OfferHeardAt(sends) + Slack)
 
 \* C20a "both ends report success with the same offer/accept/confirm packets"
 SameSuccess(ro, so, rt, st, ratify) ==
